@@ -3095,7 +3095,7 @@ MODULES = {
                      + [("CharPartition", None, f) for f in PARTITION_FNS]
                      + [("CharPartition", None, "class_ids"), ("CharPartition", None, "picks"),
                         ("ClassIdIterator", "Iterator", "next"), ("PickIterator", "Iterator", "next")]
-                     + [(None, None, "merge_partitions")],
+                     + [(None, None, "merge_partitions"), (None, None, "merge_partition_list")],
     },
 }
 
